@@ -47,7 +47,7 @@ def no_type_flow(F, rep):
         return ty_mentions(ty, ["name_resolution::Type"])
     for fn, b, o, used in nonint.used_bindings(F, pred):
         n += 1
-        if used and b["ty"].lstrip("&").startswith(("std::vec::Vec<(", "alloc::vec::Vec<(")):
+        if used and nonint.is_tuple_vector(b["ty"]):
             # a vector of tuples that also holds non-type data: fine if it is only iterated / measured and the
             # tuple element holding the type is never bound to a used name (checked through the element bindings)
             uses = []
@@ -104,7 +104,7 @@ def no_type_flow(F, rep):
     rep.ob("NO-TYPE-FLOW", "no-checker-calls", not calls, "lowering/emission call no TypeChecker function (%s)" % calls)
     # (4) the lowering of literals / operators does not depend on anything typed: IR has no type payload
     ir = F.adt("sylt_compiler::intermediate::IR")
-    typed = [(v["name"], f["ty"]) for v in ir["variants"] for f in v["fields"] if "TyID" in f["ty"] or "ty::Type" in f["ty"] or "name_resolution::Type" in f["ty"]]
+    typed = [(v["name"], f["ty"]) for v in ir["variants"] for f in v["fields"] if "TyID" in f["ty"] or "sylt_compiler::ty::Type" in f["ty"] or "name_resolution::Type" in f["ty"]]
     rep.ob("NO-TYPE-FLOW", "IR-carries-no-types", not typed, "no IR op has a type payload (%s)" % typed, ir["sp"])
     rep.floor("NO-TYPE-FLOW", "type-carrying bindings inspected", n, 1)
 
